@@ -52,7 +52,10 @@ _h("c06_pow2_constructors_total", ["C06"])
 _h("c14_span_roundtrip_len3", ["C14", "C06"], timeout=1200)
 _h("c14_span_roundtrip_len4", ["C14", "C06"], tier=T, timeout=3000)
 _h("c06_span_to_slice_total", ["C06"], timeout=1200)
-# tried and dropped: `Span::from(&str)` (str::lines() over symbolic bytes: CBMC out of memory even for 0..3 bytes)
+# `Span::from(&str)` (the whole-text span of the type / value / module error paths): str::lines() over symbolic bytes runs
+# CBMC out of memory even for 0..3 bytes; with the byte-loop model of Lines::next / next_back (stubs.rs) it takes 20-45 s
+_h("c06_span_from_str_len3", ["C06"], stubs=True)
+_h("c06_span_from_str_len5", ["C06"], stubs=True)
 
 
 def select(prop, tier):
